@@ -54,9 +54,19 @@ Definition eval (id : Z) (e : vexp) : value :=
 Definition etruthy (e : vexp) : bool := match e with ENil | EFalse => false | _ => true end.
 
 (* ---------- loaders ---------- *)
+(* Where a loader's nested require runs: on the loader's own thread (TSame), or on another
+   coroutine of the same Lua state (TCo: `coroutine.wrap(function() return require(m) end)()` /
+   `coroutine.resume(coroutine.create(...))` in a Lua loader, `L.NewThread()` + a call on the new
+   thread in a Go loader). package.loaded, package.preload, the loop sentinel and the globals belong
+   to the STATE (they live in the registry, which all threads of a state share), so `run_script`
+   below does not consult the annotation: a require cycle that crosses a coroutine boundary is the
+   same loop error, a module loaded on one thread is cached for all. The annotation exists so that
+   the generated histories exercise exactly that on the real code. *)
+Inductive thread := TSame | TCo.
+
 Inductive action :=
-| Require (m : name)          (* require(m); an error propagates *)
-| PRequire (m : name)         (* pcall(require, m); an error is swallowed *)
+| Require (t : thread) (m : name)    (* require(m); an error propagates (also out of coroutine.wrap) *)
+| PRequire (t : thread) (m : name)   (* pcall(require, m) / coroutine.resume: an error is swallowed *)
 | SetLoaded (e : vexp)        (* package.loaded[<own name>] = e *)
 | Module                      (* module(<own name>) *)
 | Return (e : vexp)
@@ -124,6 +134,14 @@ Definition bump (s : state) : state :=
 Definition add_funcs (s : state) (t : Z * Z) (fs : list Z) : state :=
   mkState (loaded s) (preload s) (files s) (path s) (globals s) (log s) (next s)
           (map (fun f => (t, f)) fs ++ tfuncs s).
+
+(* a script assigns a NEW table to package.preload, holding the old entries of the names in `keep`
+   (keep = [] : `package.preload = {}`; all names: a copy). The searcher and PreloadModule read the
+   field package.preload at every call, so from now on the new table is the preload table. *)
+Definition memz (n : name) (l : list name) : bool := existsb (Z.eqb n) l.
+Definition new_preload (s : state) (keep : list name) : state :=
+  mkState (loaded s) (fun n => if memz n keep then preload s n else None) (files s) (path s)
+          (globals s) (log s) (next s) (tfuncs s).
 
 Definition init : state :=
   mkState (fun _ => VNil) (fun _ => None) (fun _ _ => None) [0; 1] (fun _ => VNil) [] 0 [].
@@ -238,13 +256,13 @@ Fixpoint run_script (req : state -> name -> state * result) (self : name) (id : 
   | [] => (s, Ok VNil)
   | a :: r =>
     match a with
-    | Require m =>
+    | Require _ m =>
       let '(s1, res) := req s m in
       match res with
       | Ok _ => run_script req self id k r s1
       | _ => (s1, res)
       end
-    | PRequire m =>
+    | PRequire _ m =>
       let '(s1, res) := req s m in
       match res with
       | OutOfFuel => (s1, OutOfFuel)
@@ -326,7 +344,8 @@ Inductive op :=
 | HSetGlobal (n : name) (e : gexp)
 | HGetGlobal (n : name)
 | HGetLoaded (n : name)
-| HRegister (n : name) (fs : list Z).          (* L.RegisterModule(n, fs) *)
+| HRegister (n : name) (fs : list Z)           (* L.RegisterModule(n, fs) *)
+| HNewPreload (keep : list name).              (* package.preload = {copies of the entries of `keep`} *)
 
 Inductive obs :=
 | ONone
@@ -372,6 +391,7 @@ Section StepGen.
     | HGetLoaded n => (s, OVal (loaded s n))
     | HRegister n fs =>
       let '(s', r) := reg s n fs in (s', OReg r (funcs_of s' r))
+    | HNewPreload keep => (new_preload s keep, ONone)
     end.
 
   Fixpoint run_gen (fuel : nat) (s : state) (h : list op) : state * list obs :=
@@ -392,7 +412,7 @@ Definition run_old := run_gen require_old register_old.
 
 (* ---------- side conditions used by the theorems ---------- *)
 Definition is_req (a : action) : bool :=
-  match a with Require _ | PRequire _ => true | _ => false end.
+  match a with Require _ _ | PRequire _ _ => true | _ => false end.
 
 (* a loader never resets its own package.loaded entry to nil/false and then requires again:
    this is what keeps the sentinel in place while nested loads run *)
@@ -443,12 +463,12 @@ Definition op_ok (ns : list name) (o : op) : Prop :=
   end.
 
 (* every module of the list has a loader whose first action is to require the next one; the last
-   one requires `last` *)
+   one requires `last`; every link may cross a coroutine boundary (any thread annotation) *)
 Fixpoint links (s : state) (ns : list name) (last : name) : Prop :=
   match ns with
   | [] => True
   | n :: r =>
-    (exists o k rest, search loLoaders s n [] = inr (o, k, Require (hd last r) :: rest)) /\
+    (exists t o k rest, search loLoaders s n [] = inr (o, k, Require t (hd last r) :: rest)) /\
     links s r last
   end.
 
